@@ -51,6 +51,8 @@ MANIFEST = dict(
 )
 
 
+ENGINE_MODES = ("engine", "cancel", "provfail")
+
 # ------------------------------------------------------------------------------------------ build
 
 _bins = None
@@ -84,13 +86,20 @@ def build():
 def design(thorough):
     pos = [("AggregatorMC", "Aggregator_exh.cfg"), ("AggregatorMC", "Aggregator_exh_block.cfg"),
            ("AggregatorMC", "Aggregator_exh_q2.cfg"), ("AggregatorMC", "Aggregator_exh_block_q2.cfg"),
-           ("ShutdownMC", "Shutdown_exh.cfg"), ("ShutdownMC", "Shutdown_exh_drop.cfg")]
+           ("ShutdownMC", "Shutdown_exh.cfg"), ("ShutdownMC", "Shutdown_exh_drop.cfg"),
+           # engine await loop composed with the aggregator (PoolAgg.tla)
+           ("PoolAggMC", "PoolAgg_exh_nofault.cfg"), ("PoolAggMC", "PoolAgg_exh_small.cfg")]
     if thorough:
         pos += [("AggregatorMC", "Aggregator_exh_big.cfg"), ("ShutdownMC", "Shutdown_exh_q2.cfg"),
-                ("ShutdownMC", "Shutdown_exh_big.cfg")]
+                ("ShutdownMC", "Shutdown_exh_big.cfg"),
+                ("PoolAggMC", "PoolAgg_exh.cfg"), ("PoolAggMC", "PoolAgg_exh_block.cfg"),
+                ("PoolAggMC", "PoolAgg_live.cfg"), ("PoolAggMC", "PoolAgg_exh_big.cfg")]
     neg = [("AggregatorMC", "Aggregator_neg_nodrain.cfg"), ("AggregatorMC", "Aggregator_neg_noflush.cfg"),
            ("AggregatorMC", "Aggregator_neg_nocount.cfg"), ("AggregatorMC", "Aggregator_neg_late.cfg"),
-           ("ShutdownMC", "Shutdown_neg_nowait.cfg"), ("ShutdownMC", "Shutdown_neg_reach.cfg")]
+           ("ShutdownMC", "Shutdown_neg_nowait.cfg"), ("ShutdownMC", "Shutdown_neg_reach.cfg"),
+           ("PoolAggMC", "PoolAgg_neg_early.cfg"), ("PoolAggMC", "PoolAgg_neg_early_complete.cfg")]
+    if thorough:
+        neg += [("PoolAggMC", "PoolAgg_neg_reach.cfg")]
     vlib.spec_copy()
 
     def one(mc):
@@ -111,7 +120,8 @@ def design(thorough):
     if thorough:
         # every action of the design modules must have fired (an action that never fires is a modelling hole)
         import re
-        for mod, cfg in (("AggregatorMC", "Aggregator_exh.cfg"), ("ShutdownMC", "Shutdown_exh_drop.cfg")):
+        for mod, cfg in (("AggregatorMC", "Aggregator_exh.cfg"), ("ShutdownMC", "Shutdown_exh_drop.cfg"),
+                         ("PoolAggMC", "PoolAgg_exh_small.cfg")):
             r = vlib.tlc(mod, cfg, workers=4, heap="4g", timeout=3000, deadlock=False, coverage=True)
             vlib.tlc_must_pass(r, cfg + " (coverage)")
             acts = re.findall(r"^<(\w+) line \d+, col \d+ to line \d+, col \d+ of module \w+>: (\d+):(\d+)", r.out, re.M)
@@ -180,10 +190,13 @@ def validate(v, module, rows, d, describe, name):
             validated += len(runs)
             break
         ln = int(tr.trace_state.get("l", "1"))
-        idx = min(max(ln - (1 if tr.what == "Accepted" else 2), 0), len(rows) - 1)
+        idx = min(max(ln - (1 if tr.what in ("Accepted", "PAccepted") else 2), 0), len(rows) - 1)
         ev = rows[idx]
         run = ev["run"]
         bad = tr.trace_state.get("bad", "").replace(" ", "").replace('"', "")
+        bad2 = tr.trace_state.get("bad2", "").replace(" ", "").replace('"', "")
+        if bad2 not in ("", "{}"):
+            bad = bad2 if bad in ("", "{}") else bad + bad2
         evs = [r for r in rows if r["run"] == run]
         sig, what = describe(evs, ev, tr.what, bad)
         v.violation(sig, what, replay_obj={"kind": name, "module": module, "events": evs, "at": ev, "bad": bad},
@@ -244,11 +257,21 @@ def run(tier, v):
     ncases, cstates, ctrans, csamples = format_cases(v, vdrive, d)
     # M1 in-process
     agg_path = os.path.join(d, "agg.ndjson")
-    nruns, neng, ncan, nstress = (5000, 300, 1500, 40) if thorough else (300, 24, 40, 4)
+    nruns, neng, ncan, nstress, nprov = (5000, 300, 1500, 40, 700) if thorough else (300, 24, 40, 4, 24)
     vlib.run_driver(vdrive, ["agg", "-out", agg_path, "-runs", str(nruns), "-engine", str(neng), "-cancel", str(ncan),
-                             "-dropstress", str(nstress)], timeout=3000)
+                             "-dropstress", str(nstress), "-provfail", str(nprov)], timeout=3000)
     rows = vlib.read_ndjson(agg_path)
-    agg_validated, agg_states = validate(v, "TraceAggregator", rows, d, describe_agg, "agg")
+    # real engine runs (hooks of the await loop merged with report / line events) answer to PoolAgg's trace
+    # specification, which re-uses every action of TraceAggregator; direct runs to TraceAggregator itself
+    eng_runs = {r["run"] for r in rows if r["ev"] == "Run" and r["mode"] in ENGINE_MODES}
+    with concurrent.futures.ThreadPoolExecutor(max_workers=2) as ex:
+        f1 = ex.submit(validate, v, "TraceAggregator", [r for r in rows if r["run"] not in eng_runs], d, describe_agg, "agg")
+        f2 = ex.submit(validate, v, "TracePoolAgg", [r for r in rows if r["run"] in eng_runs], d, describe_agg, "poolagg")
+        agg_validated, agg_states = f1.result()
+        pa_validated, pa_states = f2.result()
+    agg_validated += pa_validated
+    agg_states += pa_states
+    nhooks = sum(1 for r in rows if r["ev"] == "Hook")
     nrep = sum(1 for r in rows if r["ev"] == "Report") + sum(r["n"] for r in rows if r["ev"] == "Reports")
     nlines = sum(1 for r in rows if r["ev"] in ("Line", "JLine"))
     ndrop = sum(r["dropped"] for r in rows if r["ev"] == "RunEnd")
@@ -279,7 +302,9 @@ def run(tier, v):
         "in_process_runs": {"validated": agg_validated, "events": len(rows), "reports": nrep, "lines": nlines,
                             "dropped": ndrop, "runs_with_drops": droprun, "engine_runs": neng, "engine_runs_cancelled_midway": ncan,
                             "modes": {m: sum(1 for r in rows if r["ev"] == "Run" and r["mode"] == m)
-                                      for m in ("normal", "late", "burst", "engine", "cancel", "dropstress")},
+                                      for m in ("normal", "late", "burst", "engine", "cancel", "provfail", "dropstress")},
+                            "engine_runs_provider_failed_midway": nprov, "engine_hook_events": nhooks,
+                            "engine_runs_validated_by_TracePoolAgg": pa_validated,
                             "trace_spec_states": agg_states},
         "signal_runs": {"validated": sig_validated, "signalled": len(sigs), "self_ended": len(exits) - len(sigs),
                         "forced": sum(1 for e in exits if e.get("forced")),
@@ -316,5 +341,5 @@ def replay(path, v):
             v.violation("replay phoutcase", "real phout line %r differs from PhoutLine %s" % (o.get("raw"), c["expect"]))
         return None
     module = obj["module"]
-    validate(v, module, obj["events"], d, describe_agg if module == "TraceAggregator" else describe_sig, "replay")
+    validate(v, module, obj["events"], d, describe_sig if module == "TraceShutdown" else describe_agg, "replay")
     return None
